@@ -1586,7 +1586,9 @@ class Interp:
                 if len(args) > 1:
                     r = join(r, args[1])
                 return r
-            if meth in ("items", "keys", "values", "copy", "update"):
+            if meth == "copy":
+                return base
+            if meth in ("items", "keys", "values", "update"):
                 self.keyreads.append((base.data, "*", fr.fn.fq if fr.fn else "", node))
             return AV(alld | frozenset([f"{base.data}.*"]), "val")
         if k == "dict":
@@ -1686,6 +1688,8 @@ class Interp:
             if a0.is_const and isinstance(a0.data, (list, tuple, set, dict, frozenset)):
                 return AV(E, "list", [const(x) for x in a0.data])
             return AV(deps_of(a0), "val", None, shape_of(a0), via, None)
+        if name == "dict" and a0 is not None and a0.kind == "tmap":
+            return a0   # a private copy of a tracked mapping: key reads on it are still reads of the mapping
         if name == "dict":
             d = {}
             if a0 is not None and a0.kind == "dict":
